@@ -91,6 +91,19 @@ def batch_c09(tier, sd):
     base += rng.sample(ex, 16) if quick else ex
     for i in range(14 if quick else 120):
         base.append(ds.random_decl(rng, 'g%03d' % i, nmin=2, nmax=6, zero_in_async=rng.choice([0, 0, 2])))
+    for i in range(8 if quick else 40):
+        d = ds.random_decl(rng, 'b%03d' % i, nmin=2, nmax=5, p_async=0.0, zero_in_async=0)
+        fns = [p for p in d['providers'] if p['kind'] == 'fn' and p['id'] in ds.needed(d) and d['types'][p['provides'][0][0]]['form'] != 'iface'
+               and 'fields' not in d['types'][p['provides'][0][0]]]
+        if fns:
+            p = rng.choice(fns)
+            p['async'] = True
+            if len(p['provides'][0]) == 1:
+                iname = 'I9%d' % i
+                d['types'][iname] = {'form': 'iface'}
+                p['provides'][0] = list(p['provides'][0]) + [iname]
+            p['wrap'] = 'bind-async'      # kessoku.Bind[I](kessoku.Async(kessoku.Provide(f)))
+        base.append(d)
     base = [d for d in base if ds.accepts(d)]
     out = []
     for d in base:
